@@ -123,6 +123,62 @@ start :: fn do
     end
 end
 '''})
+    out.append({"name": "set_map_result_is_a_set", "role": "set-map", "dom": {"a": (0, 3), "b": (0, 3)}, "text": '''
+start :: fn do
+    s := set.from_list([?a, ?b, 1])
+    t := s -> set.map(pu x: int -> int do x * 2 end)
+    print(t -> set.len())
+    print(t -> set.contains(?a * 2))
+    print(t -> set.contains(3))
+    print(t == set.from_list([?a * 2, ?b * 2, 2]))
+    print(set.from_list([?a * 2, ?b * 2, 2]) == t)
+    t -> set.add(7)
+    print(t -> set.len())
+    one := set.from_list([5]) -> set.map(pu x: int -> int do x + 1 end)
+    print(one)
+    n := 0
+    t -> set.for_each(fn x: int do n = n + x end)
+    print(n)
+end
+'''})
+    out.append({"name": "composite_keys_with_equal_printed_form", "role": "dict-and-set-keys-are-tostring", "dom": {"a": (0, 3)}, "text": '''
+start :: fn do
+    d := dict.from_list([(("a, b", "c"), ?a), (("a", "b, c"), 2)])
+    print(d -> dict.len())
+    print(d -> dict.get(("a, b", "c")))
+    s := set.from_list([("a, b", "c"), ("a", "b, c")])
+    print(s -> set.len())
+end
+'''})
+    out.append({"name": "containers_holding_falsy_values", "role": "falsy-elements-and-values(false, 0, empty string)", "dom": {"a": (0, 2)}, "text": '''
+start :: fn do
+    l := [false, ?a > 0]
+    print(l -> list.get(0))
+    print(l -> list.get(1))
+    print(l -> list.last())
+    print(maybe.orDefault(l -> list.get(0), true))
+    print(l -> list.find(pu v: bool -> bool do not v end))
+    print(l -> list.pop())
+    print(l -> list.pop())
+    print(l -> list.pop())
+    print(l -> list.len())
+    d := dict.from_list([(1, false), (2, ?a > 1)])
+    print(d -> dict.get(1))
+    print(d -> dict.get(2))
+    print(d -> dict.contains_key(1))
+    print(d -> dict.contains_key(2))
+    print(d -> dict.get(3))
+    print((d -> dict.get(1)) == (Maybe.Just false))
+    z := [0, ?a]
+    print(z -> list.get(0))
+    print(z -> list.get(1))
+    e := ["", "x"]
+    print(e -> list.get(0))
+    dz := dict.from_list([("", 0)])
+    print(dz -> dict.get(""))
+    print(dz -> dict.contains_key(""))
+end
+'''})
     out.append({"name": "list_hetero_callbacks", "role": "list-callbacks-with-different-element-and-result-types", "dom": {"a": (0, 3), "b": (0, 3)}, "text": '''
 start :: fn do
     l := [?a, ?b, 2]
